@@ -96,13 +96,12 @@ impl SetOperations {
 
         let start = std::time::Instant::now();
 
-        let result = if self.config.use_bit_mask_optimization && num_ways <= self.config.bit_mask_threshold {
-            self.stats.used_bit_mask = true;
-            self.intersection_bit_mask(iterators)?
-        } else {
-            self.stats.used_bit_mask = false;
-            self.intersection_general(iterators)?
-        };
+        // One k-pointer scan serves every number of ways (it compares the NUMBER of ways heading
+        // the minimum with the number of ways, see intersection_bit_mask); the occurrence-counting
+        // general variant was wrong for ways holding an element more than once.
+        self.stats.used_bit_mask =
+            self.config.use_bit_mask_optimization && num_ways <= self.config.bit_mask_threshold;
+        let result = self.intersection_bit_mask(iterators)?;
 
         // Use nanosecond precision and convert to microseconds, ensuring minimum of 1
         // This handles sub-microsecond operations that would otherwise report as 0
@@ -120,11 +119,6 @@ impl SetOperations {
         I: Iterator<Item = T> + 'static,
     {
         let num_ways = iterators.len();
-        let full_mask = if num_ways >= 32 {
-            0xFFFFFFFF
-        } else {
-            (1u32 << num_ways) - 1
-        };
 
         let mut result = Vec::new();
         let mut current_values: Vec<Option<T>> = iterators.iter_mut().map(|it| it.next()).collect();
@@ -161,14 +155,9 @@ impl SetOperations {
                 None => break,
             };
 
-            // Create bit mask for ways that have this minimum value
-            let mut current_mask = 0u32;
-            for &idx in &min_indices {
-                current_mask |= 1u32 << idx;
-            }
-
-            // If all ways have this value, add to intersection
-            if current_mask == full_mask {
+            // If all ways have this value, add to intersection (count the ways: a u32 mask
+            // wraps beyond 32 ways)
+            if min_indices.len() == num_ways {
                 result.push(min_val.clone());
             }
 
